@@ -1,10 +1,14 @@
 """C01 — finite-displacement solver: symmetry expansion kernel and the displacement-direction search."""
 from contracts import c_dist as CD
 from contracts import py_displacement as PD
+from contracts import c_perm as CP
 
 
 def build(run):
     run.verify_c([CD.distribute_fc2_contract()])
     PD.displacement_search(run)
+    nc = CP.nint_contract()
+    run.verify_c([nc])
+    run.verify_c([CP.compute_permutation_contract(run.sink)], registry={"nint": nc})
     run.not_decided += ["least-squares solve of the first-atom rows (_solve_force_constants_svd: numpy.linalg.pinv and its cutoff)",
-                        "phpy_compute_permutation", "get_least_displacements bookkeeping around the direction search, is_minus_displacement"]
+                        "get_least_displacements bookkeeping around the direction search, is_minus_displacement"]
